@@ -386,16 +386,36 @@ impl C10 {
                     for (i, row) in q.iter().enumerate() {
                         let mut f = b;
                         let mut mag = 1.0 + b.abs();
+                        let mut kmax = 0.0f64;
                         for (j, sv) in inst.iter().enumerate() {
                             if j < w.len() {
                                 let kv = kref(&case.kernel, row, sv);
                                 f += w[j] * kv;
                                 mag += (w[j] * kv).abs();
+                                kmax = if kv.is_finite() { kmax.max(kv.abs()) } else { f64::INFINITY };
                             }
                         }
-                        if !dv[i].is_finite() || !lab[i].is_finite() {
+                        // a query so far out that the expansion itself leaves the range of the element type (inf, or
+                        // inf - inf = NaN) has no finite decision value to compare; the label rule still applies to
+                        // whatever value the model reports: not positive (and NaN is not) means the smaller class
+                        let tmax = if case.f32m { f32::MAX as f64 } else { f64::MAX };
+                        // (kernel values themselves, and the powers on the way to them, overflow before the weighted sum does)
+                        let overflow = !(mag.is_finite() && mag < tmax * 1e-3 && kmax < tmax * 1e-6);
+                        if (!dv[i].is_finite() && !overflow) || !lab[i].is_finite() {
                             rep.fail("non-finite", "svc-predict", format!("{}: decision value {} / label {} for row {:?}", ctx, dv[i], lab[i], row));
                             break;
+                        }
+                        if !dv[i].is_finite() {
+                            rep.count("probe.decision-value-non-finite-by-overflow", 1);
+                            rep.count("probe.decision-value-nan", dv[i].is_nan() as u64);
+                            if classes.len() == 2 {
+                                let want = if dv[i] > 0.0 { classes[1] } else { classes[0] };
+                                if lab[i] != want {
+                                    rep.fail("label-rule", "svc-predict", format!("{}: predict({:?}) = {} although the decision value is {:e} (classes {:?})", ctx, row, lab[i], dv[i], classes));
+                                    break;
+                                }
+                            }
+                            continue;
                         }
                         let err = (dv[i] - f).abs() / mag;
                         rep.max(if case.f32m { "expansion_err_rel_f32" } else { "expansion_err_rel_f64" }, err);
@@ -1248,10 +1268,17 @@ fn gen_case(batch: &str, index: u64, seed: u64) -> Case {
             }
             let c = if pr.chance(0.5) { *pr.pick(&[0.1, 1.0, 10.0, 100.0]) } else { logu(&mut pr, 0.1, 100.0) };
             let tol = if pr.chance(0.5) { *pr.pick(&[1e-2, 1e-3, 1e-4]) } else { logu(&mut pr, 1e-4, 1e-2) };
+            let far_query = Xo::fork(seed, "far-query").chance(0.05);
             let epoch = pr.usize_in(1, 4);
             let nq = pr.usize_in(0, 6);
             let s = x.iter().flatten().fold(0.0f64, |m, v| m.max(v.abs())).max(0.1);
-            let queries = (0..nq).map(|_| (0..p).map(|_| s * pr.range(-1.5, 1.5)).collect()).collect();
+            let mut queries: Vec<Vec<f64>> = (0..nq).map(|_| (0..p).map(|_| s * pr.range(-1.5, 1.5)).collect()).collect();
+            if far_query {
+                // a query so far out that a polynomial expansion overflows (terms of both signs: inf - inf = NaN)
+                let big = if f32m { 3.0e12 } else { 1.0e110 };
+                let mut fq = Xo::fork(seed, "far-query-row");
+                queries.push((0..p).map(|_| big * fq.range(-1.0, 1.0)).collect());
+            }
             let mut tape = TapeSpec::prng(tape_seed);
             let mut kind = format!("{}/prng", dkind);
             match batch {
